@@ -3,6 +3,7 @@ package abi
 import (
 	"encoding/json"
 	"fmt"
+	"reflect"
 	"strconv"
 	"strings"
 	"unsafe"
@@ -91,6 +92,7 @@ type ScanObs struct {
 	Rows     [][]ObsCell
 	N        int // Result.Len() after the call
 	CLen     int // len(collection) after the call
+	CCap     int // cap(collection) after the call (read by reflection; not part of the model)
 }
 
 // FreshInput copies b into an allocation with cap == len, so that an over-read
@@ -114,7 +116,7 @@ func RunScan(res *dig.VerifResult, input []byte) (obs ScanObs) {
 	if p {
 		return ScanObs{Kind: "panic", PanicMsg: msg}
 	}
-	obs.N, obs.CLen = res.Len(), res.Collection()
+	obs.N, obs.CLen, obs.CCap = res.Len(), res.Collection(), collectionCap(res)
 	if err != nil {
 		obs.Kind = "err"
 		return obs
@@ -143,6 +145,16 @@ func RunScan(res *dig.VerifResult, input []byte) (obs ScanObs) {
 		obs.Rows = append(obs.Rows, or)
 	}
 	return obs
+}
+
+// collectionCap reads cap(Result.collection) through the hook's wrapper.
+func collectionCap(res *dig.VerifResult) (c int) {
+	defer func() {
+		if recover() != nil {
+			c = -1
+		}
+	}()
+	return reflect.ValueOf(res).Elem().FieldByName("r").Elem().FieldByName("collection").Cap()
 }
 
 // Coq term of type scan_obs.
